@@ -8,17 +8,69 @@
 //                           `split(' ')` + MigrationTaskMeta::from_strings (coordinator/migration.rs parse_migration_task_meta;
 //                           that function is private: the two statements are repeated here and pinned textually by checks/C17.py)
 use crate::util::*;
+use futures::{Future, StreamExt};
+use parking_lot::Mutex;
 use std::collections::HashMap;
+use std::pin::Pin;
+use std::sync::Arc;
 use std::convert::TryFrom;
 use undermoon::common::cluster::{
-    ClusterName, MigrationMeta, MigrationTaskMeta, Range, RangeList, ReplPeer, SlotRange, SlotRangeTag,
+    ClusterName, MigrationMeta, MigrationTaskMeta, Node, PeerProxy, Proxy, Range, RangeList, ReplMeta, ReplPeer, Role,
+    SlotRange, SlotRangeTag,
 };
+use undermoon::coordinator::verif::{
+    MigrationStateChecker, MigrationStateRespChecker, ProxyMetaRespSender, ProxyMetaSender,
+};
+use undermoon::protocol::{BinSafeStr, OptionalMulti, RedisClient, RedisClientError, RedisClientFactory, RespVec};
 use undermoon::common::config::{ClusterConfig, CompressionStrategy};
 use undermoon::common::proto::{ClusterMapFlags, ProxyClusterMeta};
 use undermoon::common::utils::CmdParseError;
 use undermoon::migration::task::SwitchArg;
 use undermoon::protocol::{Array, BulkStr, Resp};
 use undermoon::replication::replicator::{encode_repl_meta, MasterMeta, ReplicaMeta, ReplicatorMeta};
+
+// a control connection that records every command; UMCTL INFOMGR is answered with the configured reply, everything else with +OK
+struct Wire {
+    sent: Mutex<Vec<Vec<Vec<u8>>>>,
+    infomgr: Mutex<Option<RespVec>>,
+}
+struct FakeClient {
+    w: Arc<Wire>,
+}
+impl RedisClient for FakeClient {
+    fn execute<'s>(
+        &'s mut self,
+        command: OptionalMulti<Vec<BinSafeStr>>,
+    ) -> Pin<Box<dyn Future<Output = Result<OptionalMulti<RespVec>, RedisClientError>> + Send + 's>> {
+        let w = self.w.clone();
+        let answer = move |c: &Vec<BinSafeStr>| -> RespVec {
+            w.sent.lock().push(c.clone());
+            if c.len() >= 2 && c[1] == b"INFOMGR" {
+                w.infomgr.lock().clone().unwrap_or(Resp::Arr(Array::Arr(vec![])))
+            } else {
+                Resp::Simple(b"OK".to_vec())
+            }
+        };
+        let res = match command {
+            OptionalMulti::Single(c) => OptionalMulti::Single(answer(&c)),
+            OptionalMulti::Multi(cs) => OptionalMulti::Multi(cs.iter().map(|c| answer(c)).collect()),
+        };
+        Box::pin(async move { Ok(res) })
+    }
+}
+struct FakeFactory {
+    w: Arc<Wire>,
+}
+impl RedisClientFactory for FakeFactory {
+    type Client = FakeClient;
+    fn create_client<'s>(
+        &'s self,
+        _address: String,
+    ) -> Pin<Box<dyn Future<Output = Result<Self::Client, RedisClientError>> + Send + 's>> {
+        let w = self.w.clone();
+        Box::pin(async move { Ok(FakeClient { w }) })
+    }
+}
 
 struct Rd<'a> {
     it: std::str::SplitWhitespace<'a>,
@@ -226,6 +278,57 @@ impl<'a> Rd<'a> {
             slot_range: sr?,
         })
     }
+    // <name hex | ~> <epoch> <n> {<addr> <m|r> <k> {sr} <np> {<node> <proxy>}} <nm peers> <cfg>
+    fn cproxy(&mut self) -> Result<Proxy, Bad> {
+        let name = match self.next() {
+            "~" => Ok(None),
+            h => String::from_utf8(unhex(h))
+                .map_err(|_| Bad)
+                .and_then(|s| ClusterName::try_from(s.as_str()).map_err(|_| Bad))
+                .map(Some),
+        };
+        let epoch = self.u64();
+        let n = self.cnt();
+        let mut nodes = vec![];
+        let mut bad = false;
+        for _ in 0..n {
+            let a = self.s();
+            let role = if self.next() == "m" { Role::Master } else { Role::Replica };
+            let k = self.cnt();
+            let mut srs = vec![];
+            for _ in 0..k {
+                match self.sr() {
+                    Ok(sr) => srs.push(sr),
+                    Err(_) => bad = true,
+                }
+            }
+            let np = self.cnt();
+            let mut ps = vec![];
+            for _ in 0..np {
+                match (self.s(), self.s()) {
+                    (Ok(x), Ok(y)) => ps.push(ReplPeer {
+                        node_address: x,
+                        proxy_address: y,
+                    }),
+                    _ => bad = true,
+                }
+            }
+            match a {
+                Ok(a) => nodes.push(Node::new(a, "10.255.0.1:5299".to_string(), srs, ReplMeta::new(role, ps))),
+                Err(_) => bad = true,
+            }
+        }
+        let peers = self.nm();
+        let cfg = self.cfg();
+        if bad {
+            return Err(Bad);
+        }
+        let peers = peers?
+            .into_iter()
+            .map(|(proxy_address, slots)| PeerProxy { proxy_address, slots })
+            .collect();
+        Ok(Proxy::new(name?, "10.255.0.1:5299".to_string(), epoch?, nodes, peers, Some(cfg?)))
+    }
     fn toks(&mut self) -> Vec<Vec<u8>> {
         let mut v = vec![];
         while let Some(t) = self.it.next() {
@@ -358,7 +461,11 @@ fn pcm_dec(toks: &[Vec<u8>]) -> String {
 
 const UNC: &str = "unconstructible";
 
-pub fn run_case(_rt: &tokio::runtime::Runtime, line: &str) -> String {
+fn cmd_resp(cmd: &[Vec<u8>]) -> Resp<Vec<u8>> {
+    Resp::Arr(Array::Arr(cmd.iter().map(|t| Resp::Bulk(BulkStr::Str(t.clone()))).collect()))
+}
+
+pub fn run_case(rt: &tokio::runtime::Runtime, line: &str) -> String {
     let mut it = line.split_whitespace();
     let kind = it.next().unwrap_or("");
     let mut rd = Rd { it };
@@ -499,6 +606,50 @@ pub fn run_case(_rt: &tokio::runtime::Runtime, line: &str) -> String {
             },
             Err(_) => UNC.into(),
         },
+        "coord_send" => {
+            // coordinator/sync.rs ProxyMetaRespSender::send_meta over a recording connection; both commands it sends are
+            // handed to the parsers the proxy uses (proxy/executor.rs handle_umctl_setrepl / handle_umctl_set_cluster)
+            let compress = rd.cnt() == 1;
+            let proxy = match rd.cproxy() {
+                Ok(p) => p,
+                Err(_) => return UNC.into(),
+            };
+            let w = Arc::new(Wire {
+                sent: Mutex::new(vec![]),
+                infomgr: Mutex::new(None),
+            });
+            let sender = ProxyMetaRespSender::new(Arc::new(FakeFactory { w: w.clone() }), compress);
+            if let Err(e) = rt.block_on(sender.send_meta(proxy)) {
+                return format!("send-error {:?}", e);
+            }
+            let sent = w.sent.lock().clone();
+            if sent.len() != 2 || sent[0].get(1).map(|t| t.as_slice()) != Some(b"SETREPL") || sent[1].get(1).map(|t| t.as_slice()) != Some(b"SETCLUSTER") {
+                return format!("unexpected-commands {}", sent.len());
+            }
+            let repl = match ReplicatorMeta::from_resp(&cmd_resp(&sent[0])) {
+                Ok(m) => format!("ok {}", pr_repl(&m)),
+                Err(e) => pr_err(&e),
+            };
+            let cluster = match ProxyClusterMeta::from_resp(&cmd_resp(&sent[1])) {
+                Ok((m, ext)) => format!("ok {} ext={}", pr_pcm(&m), ext.is_ok() as u8),
+                Err(e) => pr_err(&e),
+            };
+            format!("repl {} | cluster {}", repl, cluster)
+        }
+        "coord_infomgr" => {
+            // coordinator/migration.rs MigrationStateRespChecker::check (the real parse_migration_task_meta) on an INFOMGR reply
+            let w = Arc::new(Wire {
+                sent: Mutex::new(vec![]),
+                infomgr: Mutex::new(Some(Resp::Arr(Array::Arr(vec![Resp::Bulk(BulkStr::Str(unhex(rd.next())))])))),
+            });
+            let checker = MigrationStateRespChecker::new(Arc::new(FakeFactory { w }));
+            let res: Vec<_> = rt.block_on(checker.check("10.255.0.1:5299".to_string()).collect());
+            match res.as_slice() {
+                [Ok(t)] => format!("ok {}", pr_task(t)),
+                [Err(_)] => "err None".into(),
+                _ => format!("unexpected-results {}", res.len()),
+            }
+        }
         "repl_enc" => match rd.repl() {
             Ok(m) => pr_toks(&encode_repl_meta(m)),
             Err(_) => UNC.into(),
